@@ -700,6 +700,24 @@ impl RenetClient {
 
 #[cfg(renet_verif)]
 impl RenetClient {
+    /// Moves the counters of a connection that has not exchanged anything yet forward: the packet sequence and the
+    /// message ids of every channel, as if that much traffic had been sent, received and acknowledged.
+    pub fn verif_warp(&mut self, packet_sequence: u64, message_id: u64) {
+        if !self.sent_packets.is_empty() || !self.pending_acks.is_empty() {
+            return;
+        }
+        self.packet_sequence = packet_sequence;
+        for c in self.send_reliable_channels.values_mut() {
+            c.verif_warp(message_id);
+        }
+        for c in self.send_unreliable_channels.values_mut() {
+            c.verif_warp(message_id);
+        }
+        for c in self.receive_reliable_channels.values_mut() {
+            c.verif_warp(message_id);
+        }
+    }
+
     /// Accounted memory of every receive channel as (channel id, is reliable, bytes), sorted.
     pub fn verif_receive_memory(&self) -> Vec<(u8, bool, usize)> {
         let mut v: Vec<(u8, bool, usize)> = self
